@@ -75,7 +75,8 @@ class Mon(Monitor):
                 if name == 'DISCONNECT':
                     disc_at = k
                     closed = any(o[0] == 'close' and o[1] == ci for o in w.new_obs())
-                    if ev[0] != 'disconnect' or ev[1] != c.addr:
+                    called = any(o[0] == 'call' and o[2] == 'disconnect' and o[3] == ci for o in w.new_obs())
+                    if not called:
                         out.append(V('disconnect', 'disconnect-outside-disconnect-call/on-%s' % ev[0], 'connection %d' % ci))
                     elif not closed:
                         out.append(V('disconnect', 'disconnect-without-close-request', 'connection %d' % ci))
@@ -125,6 +126,18 @@ def scenarios(ctx):
                        budgets=dict(pub=1, sub=1, ack=1 if q else 2, tick=2 if q else 3, lose=1, disconnect=1, inpub=1, inrel=1,
                                     rebuild=1, connect=1, connack=1),
                        inpubs=inp[1:], inrels=((2,),), closing=False))
+    # re-entrant use of the API from inside the application's own callbacks
+    for mode in ('sync', 'async'):
+        out.append(Std('reenter-errback-publish-%s' % mode, profile='pub', mode=mode, init=CONNECTED + (('setwin', 0, 2),),
+                       reenter=('err:pub>pub',), pub_qos=(1, 2), reconnects=[(True, 0, 4)], closing=False,
+                       budgets=dict(pub=2, ack=1, tick=2, lose=1, disconnect=1, rebuild=1, connect=1, connack=1)))
+        out.append(Std('reenter-ack-disconnect-%s' % mode, profile='pub', mode=mode, init=CONNECTED,
+                       reenter=('ok:pub>disconnect',), pub_qos=(1, 2), windows=(1, 2), closing=False,
+                       budgets=dict(pub=2, ack=3, tick=2, setwin=1)))
+        out.append(Std('reenter-onpublish-disconnect-%s' % mode, profile='pubsub', mode=mode, init=CONNECTED,
+                       reenter=('onPublish>disconnect',), pub_qos=(1,), inpubs=inp + ((0, False, False, 1, 'short'),),
+                       inrels=((2,),), closing=False,
+                       budgets=dict(pub=1, inpub=2, inrel=1, tick=2, ack=1)))
     return out
 
 
